@@ -31,6 +31,13 @@ def run(ctx, want_lock, n=None):
         for k, v in st.items():
             tot[k] = tot.get(k, 0) + v
         for p in problems:
+            if p.startswith('KF-C07-1'):
+                kf = [f for f in ctx.findings if f['id'] == 'KF-C07-1' and f.get('status') == 'known']
+                if kf:
+                    ctx.known_finding(kf[0])
+                    attributed = ctx.monitor.setdefault('cluster_cases_ended_by_known_finding', [])
+                    attributed.append(seed)
+                    continue
             is_lock = ('lock' in p.split(':')[1][:12] if 'replicas differ' in p else p.startswith('lock '))
             if 'harness crash' in p or 'exception escaped' in p or is_lock == want_lock:
                 hits += 1
